@@ -52,6 +52,9 @@ def programs(tier):
     for k in (24, 32, 40, 48, 56, 64, 72, 80, 128) if tier == 'thorough' else (24, 40, 64, 72):
         for c in wide_family(k):
             progs.append({'widths': c, 'embed': False})
+    for c in compositions(8) + [x for x in c16 if len(x) <= 3][::3]:
+        for lent in ('int', 'bits'):
+            progs.append({'widths': c, 'embed': True, 'lent': lent})
     for p in list(progs):
         if not p['embed'] and len(p['widths']) <= 2:
             progs.append({'widths': p['widths'], 'embed': False, 'gen': False})
@@ -71,15 +74,19 @@ def programs(tier):
 
 def source(p):
     lines = []
-    if p.get('embed'):
-        lines.append('pre = Int(1)')
-    for i, w in enumerate(p['widths']):
-        lines.append('b%d = Bits(%d)' % (i, w))
-    if p.get('embed'):
-        lines.append('post = Int(2)')
     opts = dict(mk.GEN_ALL_OFF) if p.get('gen') is False else {}
     if p.get('endianness'):
         opts['endianness'] = p['endianness']
+    run = ['b%d = Bits(%d)' % (i, w) for i, w in enumerate(p['widths'])]
+    if p.get('lent'):
+        # the run lives in class E; K borrows it (Ref(E, embed=True)) right after an integer or after another bit run
+        pre = 'pre = Int(1)' if p['lent'] == 'int' else 'pre = Bits(8)'
+        return mk.class_src('E', run, opts or None) + '\n' + mk.class_src('K', [pre, 'e = Ref(E, embed=True)', 'post = Int(2)'], opts or None)
+    if p.get('embed'):
+        lines.append('pre = Int(1)')
+    lines.extend(run)
+    if p.get('embed'):
+        lines.append('post = Int(2)')
     return mk.class_src('K', lines, opts or None)
 
 
